@@ -609,11 +609,23 @@ def hexUpper (n : Nat) : UInt8 := if n < 10 then UInt8.ofNat (48 + n) else UInt8
 /-- `\xHH` -/
 def escape (b : UInt8) : Bytes := [92, 120, hexUpper (b.toNat / 16), hexUpper (b.toNat % 16)]
 
-def sanitizeByte (p : Printable) (b : UInt8) : Bytes := if p.ok b then [b] else escape b
+/-- for ANY `check_printable_char` (`BackendOptions` takes a `std::function<bool(char)>`; the default is one instance) -/
+def sanitizeByteBy (ok : UInt8 → Bool) (b : UInt8) : Bytes := if ok b then [b] else escape b
 
-/-- `sanitize_non_printable_chars`: scan; only when something fails the predicate rebuild the message -/
-def sanitize (p : Printable) (s : Bytes) : Bytes :=
-  if s.all p.ok then s else s.flatMap (sanitizeByte p)
+/-- `sanitize_non_printable_chars`: a detection loop that asks the predicate about EVERY byte; only when some byte
+    fails it the message is rebuilt, asking the predicate about every byte again -/
+def sanitizeBy (ok : UInt8 → Bool) (s : Bytes) : Bytes :=
+  if s.all ok then s else s.flatMap (sanitizeByteBy ok)
+
+def sanitizeByte (p : Printable) (b : UInt8) : Bytes := sanitizeByteBy p.ok b
+
+/-- the sanitiser under the default predicate shape (`lo`/`hi`/`extra`, extracted) -/
+def sanitize (p : Printable) (s : Bytes) : Bytes := sanitizeBy p.ok s
+
+/-- the variant whose DETECTION loop skips the predicate for bytes in `' '..'~'` (the rewrite loop unchanged) — kept
+    only to show what goes wrong with a predicate stricter than the default inside printable ASCII -/
+def sanitizeDetectShortcut (ok : UInt8 → Bool) (s : Bytes) : Bytes :=
+  if s.all (fun b => (decide (32 ≤ b.toNat) && decide (b.toNat ≤ 126)) || ok b) then s else s.flatMap (sanitizeByteBy ok)
 
 /-- `DynamicFormatArgStore::has_string_related_type` by shape (fmt's `char`, string, C string and custom types) -/
 def stringRelated : Shape → Bool
